@@ -149,6 +149,13 @@ def _chunk(modname, cfgname, cfg, base_seed, indices, want_samples):
             })
         if len(agg["samples"]) < want_samples and out.get("sample") is not None:
             agg["samples"].append(out["sample"])
+        if os.environ.get("VERIF_DUMP_DIGESTS"):
+            # determinism self-test: one line per run that captures everything the run decided
+            import hashlib
+            blob = json.dumps([out.get("digest"), out.get("sched"), out.get("evaluations", 1), sorted(out.get("stats", {}).items()),
+                               [v["sig"] for v in out.get("violations", [])], out.get("steps", 0), repr(out.get("sim_time", 0.0)),
+                               out.get("sample"), len(out["tape"])], sort_keys=True, default=str)
+            agg.setdefault("run_digests", []).append((cfgname, i, hashlib.sha256(blob.encode()).hexdigest()[:24]))
     return agg
 
 
@@ -326,6 +333,10 @@ def search(mod, args):
                 for k in ("digests", "nontrivial", "states", "scheds"):
                     t[k] |= agg[k]
                 t["samples"].extend(agg["samples"])
+                if agg.get("run_digests"):
+                    with open(os.environ["VERIF_DUMP_DIGESTS"], "a") as df:
+                        for cfgn, idx, dg in agg["run_digests"]:
+                            df.write(f"{cfgn} {idx} {dg}\n")
                 for v in agg["violations"]:
                     v["cfgname"] = agg["cfgname"]
                     violations.append(v)
